@@ -102,16 +102,24 @@ func UpdatePathAttrs4ByteAs(logger *slog.Logger, msg *bgp.BGPUpdate) {
 		switch a := attr.(type) {
 		case *bgp.PathAttributeAsPath:
 			asAttr = a
-			for j, param := range asAttr.Value {
+			converted := false
+			params := make([]bgp.AsPathParamInterface, 0, len(a.Value))
+			for _, param := range a.Value {
 				as2Param, ok := param.(*bgp.AsPathParam)
 				if ok {
 					asPath := make([]uint32, 0, len(as2Param.AS))
 					for _, as := range as2Param.AS {
 						asPath = append(asPath, uint32(as))
 					}
-					as4Param := bgp.NewAs4PathParam(as2Param.Type, asPath)
-					asAttr.Value[j] = as4Param
+					param = bgp.NewAs4PathParam(as2Param.Type, asPath)
+					converted = true
 				}
+				params = append(params, param)
+			}
+			if converted {
+				// the 4-octet form is longer on the wire: rebuild the attribute so
+				// that its cached length (Len()) matches what Serialize() emits
+				asAttr = bgp.NewPathAttributeAsPath(params)
 			}
 			asAttrPos = i
 			msg.PathAttributes[i] = asAttr
